@@ -103,20 +103,23 @@ def run_reader(ctx, b, fmt, offsets=None, capture=None, fake_missing=None, sanit
 # ---------------------------------------------------------------------------- (a) plan stream
 
 def plan_case(ctx, rng, k, drv):
-    fmt = rng.choice(["podGac", "podLac"])
+    fmt = rng.choice(["podGac", "podLac"]) if k >= 2 else ["podGac", "podLac"][k]
     num, den = timesgen.period(fmt)
     n = rng.choice([3, 8, 20, 40]) if fmt == "podLac" else rng.choice([3, 8, 30, 80])
     n0 = rng.choice([1, 1, 2, 9, 300, 2000])
     nums, cur = [], n0
     for _ in range(n):
         nums.append(cur)
-        cur += 1 + (rng.choice([1, 2, 5, 30]) if rng.random() < 0.15 else 0)
+        cur += 1 + (rng.choice([1, 2, 5, 30]) if (rng.random() < 0.15 and k >= 2) else 0)
     start = ydm_to_ms(2000, 322, rng.randint(3600000, 80000000))
     lats = (np.array(nums, dtype=float) / 128.0)[:, None] * np.ones((1, 51))
     lons = np.ones((len(nums), 1)) * np.linspace(-60, 60, 51)[None, :]
     b = pod_pass(ctx, fmt, nums, start, lats, lons, rng)
     offs = timesgen.ideal_offsets(fmt, nums)
     kind, tu, te = error_profile(rng, start, start + int(offs[-1]), num / den / 1000.0)
+    if k < 2:
+        # corpus: a past failure runs first - error changing sign inside a gap-free pass (no line to recompute)
+        kind, tu, te = "sign-change", [start, start + int(offs[-1])], ["-0.80", "0.90"]
     cap = {}
 
     def fake(self, missed_utcs):
@@ -132,6 +135,11 @@ def plan_case(ctx, rng, k, drv):
     except Exception as e:
         ctx.violation("%s plan case (%s): clock-drift correction raised %r" % (fmt, kind, e), payload, cls="raises:" + type(e).__name__)
         return
+    # the line-number sanitiser (C11's subject) may have dropped records: judge the lines the reader kept
+    nums = [int(x) for x in r.scans["scan_line_number"]]
+    if nums != payload["nums"]:
+        ctx.branches["plan/sanitiser-dropped-lines"] += 1
+        payload["nums_kept"] = nums
     # errors at the line times (exact rational interpolation of the two-point table)
     errs = []
     for t in t_pre.tolist():
@@ -181,7 +189,8 @@ def judge_plan(ctx, drv):
         if any(abs(a - b) > 1 for a, b in zip(m_shift, got["shift"])):
             ctx.corr_break("plan: model time shifts %s.., implementation %s.." % (m_shift[:3], got["shift"][:3]), payload)
         mm_us = [float(x) * 1000 for x in fr(missed_ms)]
-        if got["missed_us"] is None or len(mm_us) != len(got["missed_us"]) or any(abs(a - b) > 1 for a, b in zip(mm_us, got["missed_us"])):
+        got_us = got["missed_us"] or []      # the orbit computation is not called when no line has to be recomputed
+        if len(mm_us) != len(got_us) or any(abs(a - b) > 1 for a, b in zip(mm_us, got_us)):
             ctx.corr_break("plan: nominal times of the recomputed lines differ (model %d lines %s.., implementation %s..)" % (
                 len(mm_us), mm_us[:2], (got["missed_us"] or [])[:2]), payload)
 
